@@ -333,3 +333,48 @@ fn should_have_fallback_is_float_only() {
         && !RangeType::I64.should_have_fallback() && !RangeType::U8.should_have_fallback() && !RangeType::U16.should_have_fallback()
         && !RangeType::U32.should_have_fallback() && !RangeType::U64.should_have_fallback());
 }
+
+// ---- `Multiple` with two children of SYMBOLIC flat shape (bounded: 2 children, depth 1) ----
+macro_rules! do_match_multiple_sym {
+    ($m:ident, $t:ty) => {
+        mod $m {
+            use super::*;
+            fn any_flat() -> (Range<$t>, u8, $t, $t) {
+                let k: u8 = kani::any();
+                let a: $t = kani::any();
+                let b: $t = kani::any();
+                kani::assume(k < 5);
+                let r = match k {
+                    0 => Range::Exact(a),
+                    1 => Range::Bounds { start: Some(a), end: Bound::Included(b) },
+                    2 => Range::Bounds { start: None, end: Bound::Excluded(b) },
+                    3 => Range::Bounds { start: Some(a), end: Bound::Unbounded },
+                    _ => Range::Fallback,
+                };
+                (r, k, a, b)
+            }
+            fn want(k: u8, a: $t, b: $t, n: $t) -> bool {
+                match k { 0 => n == a, 1 => (a..=b).contains(&n), 2 => (..b).contains(&n), 3 => (a..).contains(&n), _ => true }
+            }
+            #[kani::proof]
+            #[kani::unwind(3)]
+            fn two_symbolic_children() {
+                let n: $t = kani::any();
+                let (r0, k0, a0, b0) = any_flat();
+                let (r1, k1, a1, b1) = any_flat();
+                let r: Range<$t> = Range::Multiple(vec![r0, r1]);
+                let got = r.do_match(n);
+                core::mem::forget(r);
+                assert!(got == (want(k0, a0, b0, n) || want(k1, a1, b1, n)));
+            }
+        }
+    };
+}
+do_match_multiple_sym!(dms_i8, i8);
+do_match_multiple_sym!(dms_i16, i16);
+do_match_multiple_sym!(dms_i32, i32);
+do_match_multiple_sym!(dms_i64, i64);
+do_match_multiple_sym!(dms_u8, u8);
+do_match_multiple_sym!(dms_u16, u16);
+do_match_multiple_sym!(dms_u32, u32);
+do_match_multiple_sym!(dms_u64, u64);
